@@ -146,11 +146,12 @@ PROPS = {
             dict(name="ref", model="val", quick=600, thorough=20000),
             dict(name="dyn", model="val", quick=400, thorough=10000),
             dict(name="ptr", model="val", quick=500, thorough=10000),
-            dict(name="repr", model="val", quick=300, thorough=10000),
+            dict(name="repr", model="val", quick=500, thorough=10000),
+            dict(name="equal", model="equal", quick=500, thorough=10000),
             dict(name="infer", model="infer", quick=900, thorough=20000)],
   laws=["law_returns", "law_c10"],
   ignore_keys=["calls", "hasheq"],
-  rule="family robust: per case 6-36 calls of one kind - bytes (Unmarshal on mutated schema documents: truncation, byte flips, every keyword of the Schema struct given every JSON type incl. out-of-range numbers and lone surrogates, nesting 50..100000 deep, noise; whatever is accepted is Resolved), graph (Resolve, then Validate/ApplyDefaults where no in-place cycle exists, on Go Schema graphs with nil children in slices and maps, shared pointers, cycles, malformed URIs/pointers/anchors/regexps/$schema, conflicting fields, odd BaseURI), loader (loaders that fail, return nil, the root itself, back-references, wrong documents, other drafts, an unbounded universe), inst (Validate, ApplyDefaults(&x) on 60 odd Go values: typed nils, NaN/Inf, bad json.Number literals, structs, arrays, non-string-key maps, chan/func/complex, big.Int...), types (ForType on 40 declared types incl. recursive/mutually recursive/unsupported kinds at depth, run-time struct types, TypeSchemas with nil entries, IgnoreInvalidTypes on/off; results Resolved); outcome classes ok/err/panic/hang(10 s) per call, a dying process (stack overflow) is attributed to the running case; families ref/dyn/ptr/repr/infer: outcome classes incl. panics compared with the model (which has Panic results; For/ForType on the type zoo incl. unsupported fields with tags and options); documented preconditions respected: ApplyDefaults takes a pointer, ForType a non-nil type, Marshal/CloneSchemas/String are not C10 entry points",
+  rule="family robust: per case 6-36 calls of one kind - bytes (Unmarshal on mutated schema documents: truncation, byte flips, every keyword of the Schema struct given every JSON type incl. out-of-range numbers and lone surrogates, nesting 50..100000 deep, noise; whatever is accepted is Resolved), graph (Resolve, then Validate/ApplyDefaults where no in-place cycle exists, on Go Schema graphs with nil children in slices and maps, shared pointers, cycles, malformed URIs/pointers/anchors/regexps/$schema, conflicting fields, odd BaseURI), loader (loaders that fail, return nil, the root itself, back-references, wrong documents, other drafts, an unbounded universe), inst (Validate, ApplyDefaults(&x) on 60 odd Go values: typed nils, NaN/Inf, bad json.Number literals, structs, arrays, non-string-key maps, chan/func/complex, big.Int...), types (ForType on 40 declared types incl. recursive/mutually recursive/unsupported kinds at depth, run-time struct types, TypeSchemas with nil entries, IgnoreInvalidTypes on/off; results Resolved); outcome classes ok/err/panic/hang(10 s) per call, a dying process (stack overflow) is attributed to the running case; families ref/dyn/ptr/repr/equal/infer: outcome classes incl. panics compared with the model (which has Panic results; For/ForType on the type zoo incl. unsupported fields with tags and options); documented preconditions respected: ApplyDefaults takes a pointer, ForType a non-nil type, Marshal/CloneSchemas/String are not C10 entry points",
   partial="no-panic/termination is proved for Validate on resolved schemas only; Unmarshal, Resolve, ApplyDefaults and For are decided by correspondence and by the every-call-returns law on adversarial inputs",
   trusted_base=["recover() and a 10 s deadline as panic/hang detectors", "go/ast extraction of panic/assert sites"],
   assumptions=["schema recursion passes through an instance-descending keyword (the harness filters in-place cycles before Validate)"],
